@@ -66,11 +66,37 @@ namespace etl {
 /// \ingroup cmath
 [[nodiscard]] constexpr auto powl(long double base, long double exp) -> long double { return etl::pow(base, exp); }
 
+namespace detail {
+
+// Integral exponent in constant expressions: repeated squaring. Unlike exp(y * log(x)) it is exact for +-1, +-0,
+// +-inf and powers of two, keeps the sign of negative bases and yields NaN only for a NaN base with iexp != 0.
+template <typename Float>
+[[nodiscard]] constexpr auto pow_by_squaring(Float base, int iexp) -> Float
+{
+    auto n      = iexp < 0 ? 0U - static_cast<unsigned>(iexp) : static_cast<unsigned>(iexp);
+    auto result = Float(1);
+    while (n != 0U) {
+        if ((n & 1U) != 0U) {
+            result *= base;
+        }
+        n >>= 1U;
+        if (n != 0U) {
+            base *= base;
+        }
+    }
+    return iexp < 0 ? Float(1) / result : result;
+}
+
+} // namespace detail
+
 /// Computes the value of base raised to the power exp
 /// \details https://en.cppreference.com/w/cpp/numeric/math/pow
 /// \ingroup cmath
 [[nodiscard]] constexpr auto pow(float base, int iexp) -> float
 {
+    if (is_constant_evaluated()) {
+        return static_cast<float>(detail::pow_by_squaring(static_cast<double>(base), iexp));
+    }
     // through double like the std:: additional overload: float(iexp) rounds |iexp| > 2^24 and loses its parity
     return static_cast<float>(etl::pow(static_cast<double>(base), static_cast<double>(iexp)));
 }
@@ -78,13 +104,22 @@ namespace etl {
 /// Computes the value of base raised to the power exp
 /// \details https://en.cppreference.com/w/cpp/numeric/math/pow
 /// \ingroup cmath
-[[nodiscard]] constexpr auto pow(double base, int iexp) -> double { return etl::pow(base, static_cast<double>(iexp)); }
+[[nodiscard]] constexpr auto pow(double base, int iexp) -> double
+{
+    if (is_constant_evaluated()) {
+        return detail::pow_by_squaring(base, iexp);
+    }
+    return etl::pow(base, static_cast<double>(iexp));
+}
 
 /// Computes the value of base raised to the power exp
 /// \details https://en.cppreference.com/w/cpp/numeric/math/pow
 /// \ingroup cmath
 [[nodiscard]] constexpr auto pow(long double base, int iexp) -> long double
 {
+    if (is_constant_evaluated()) {
+        return detail::pow_by_squaring(base, iexp);
+    }
     return etl::pow(base, static_cast<long double>(iexp));
 }
 
